@@ -27,7 +27,8 @@ HAS_MODEL_OUT = True
 CASES_HEADER = "From Coq Require Import String.\nOpen Scope string_scope.\nOpen Scope N_scope."
 RULE = ("six stress scenarios per run (RocksDB v2 / v1 keys and CDB; mixed full and partial reloads; 300 us reload "
         "timeouts so that helper goroutines overlap; the real watcher goroutine with file changes; ServeDNS with "
-        "sliding windows; response cache on/off; updates of the RocksDB primary between catch-ups), each N query "
+        "sliding windows; response cache on/off; DummyLogger / TextLogger / the dnstap logger; updates of the RocksDB primary between catch-ups; "
+        "questions keep drawing fresh query types and classes without a mnemonic, opcodes, EDNS versions and option codes), each N query "
         "workers x reloader x stats reporter, then Close racing with in-flight queries, under the Go race detector; "
         "one case per distinct racing pair of source positions plus one summary per scenario; non-trivial = a race "
         "report, or a scenario that served queries and completed reloads")
@@ -38,8 +39,13 @@ TRUSTED_BASE = [
     "types (FBDNSDB, db.DB, DataReader, sortedDataReader, cdbdriver, rdbdriver, lockedSource, rdb.RDB, rdb.IteratorPool, rdb.Context, "
     "slidingWindow, Stats) and of goroutine-captured locals with the mutexes of the same object held there; it is syntactic and "
     "intraprocedural (locks taken by a caller count only for methods documented 'caller must hold', whose call sites are checked); "
-    "package-level variables (typeToStats, localRand, SeparateBitMap), accesses through interfaces into other packages (lru cache, logger, "
-    "glog) and aliasing of two differently named objects are not covered; it analyses the production build (files tagged verif are excluded)",
+    "package-level variables of the scanned packages (dnsserver, db, dnsdata/rdb, metrics, logger, fbserver, whoami, dnsdata, dnsdata/svcb, "
+    "dnsserver/stats) ARE covered: their declaration / func init are writes of role Init, every other write (assignment, map index assignment, "
+    "delete, copy, ++, op=) needs a common package-level mutex with every read anywhere (readers outside the role map get role AnyGo); taking the "
+    "address of a package-level variable counts as a read (listed in the translator notes of Gen/Access.v), function literals in package-level "
+    "initialisers are not analysed, variables of the libraries (miekg dns tables, glog) are outside the scan; "
+    "accesses through interfaces into other packages (lru cache, glog) and aliasing of two differently named objects are not covered; "
+    "it analyses the production build (files tagged verif are excluded, so SetRandSourceForVerif's swap of localRand is not in the table)",
     "Model/Locks.v (hand-written): which function runs in which role and which roles overlap; Init = before the servers start "
     "(FBDNSDB.Load and FBDNSDB.ValidateDbKey are assumed to finish before the first reload signal - NewFBDNSDB starts the ReloadChan "
     "consumer and the periodic ticker before Load, the code does not enforce this); exception: rdb.Context is goroutine-confined",
@@ -190,7 +196,7 @@ def broken_pairs(ctx):
         "Definition show (p : access * access) := (a_owner (fst p), a_field (fst p), (a_func (fst p), a_file (fst p), a_line (fst p)), "
         "(a_func (snd p), a_file (snd p), a_line (snd p))).\n"
         "Eval vm_compute in map show (bad_pairs accesses).\n"
-        "Eval vm_compute in filter (fun f => negb (has_role f)) (functions ++ map a_func accesses).\n"
+        "Eval vm_compute in filter (fun f => negb (has_role f)) (functions ++ map a_func (filter (fun a => negb (a_global a)) accesses)).\n"
         "Eval vm_compute in map (fun c => (c_func c, c_callee c, c_line c)) (filter (fun c => negb (call_ok c)) calls).\n")
     if rc != 0:
         return None, None, None, out
